@@ -66,6 +66,7 @@ type Ctx struct {
 	Notes    []string // free-text facts recorded for evidence
 	Stats    map[string]int
 	loadErr  []string
+	tags     string // build tags of the current pass (thorough runs a second pass under -tags=assert)
 }
 
 func NewCtx(property, tier, repo, verif string, seed int, rules []*Rule) *Ctx {
@@ -102,7 +103,11 @@ func (c *Ctx) prog(mod string) (*Prog, error) {
 			cans = append(cans, Canary{Name: CanaryName(r.ID), Src: []byte(r.Canary)})
 		}
 	}
-	p, err := Load(c.Repo, mod, os.Getenv("OTELCHECK_TAGS"), cans)
+	tags := os.Getenv("OTELCHECK_TAGS")
+	if c.tags != "" {
+		tags = c.tags
+	}
+	p, err := Load(c.Repo, mod, tags, cans)
 	if err != nil {
 		c.progs[mod] = nil
 		c.loadErr = append(c.loadErr, err.Error())
@@ -244,6 +249,52 @@ func (c *Ctx) Run() int {
 			}
 			r.Run(c, p)
 		}()
+	}
+	// thorough: second pass over the other build configuration the repository has (-tags=assert);
+	// an obligation whose verdict differs under the tag is kept as an additional obligation
+	if c.Tier == "thorough" && os.Getenv("OTELCHECK_TAGS") == "" {
+		first := map[string]Status{}
+		for _, o := range c.Obs {
+			first[o.Key] = o.Status
+		}
+		nFirst := len(c.Obs)
+		firstProgs := c.progs
+		c.tags = "assert"
+		c.progs = map[string]*Prog{}
+		for _, r := range c.activeRules() {
+			c.cur = r
+			func() {
+				defer func() {
+					if e := recover(); e != nil {
+						c.Undecided("internal|tags=assert", "?", "", fmt.Sprintf("checker panic in rule %s under -tags=assert: %v", r.ID, e))
+					}
+				}()
+				p, err := c.prog(r.Mod)
+				if err != nil {
+					c.Undecided("load|tags=assert", "?", "", "cannot analyse under -tags=assert: "+err.Error())
+					return
+				}
+				r.Run(c, p)
+			}()
+		}
+		second := c.Obs[nFirst:]
+		c.Obs = c.Obs[:nFirst]
+		same, differ := 0, 0
+		for _, o := range second {
+			if st, ok := first[o.Key]; ok && st == o.Status {
+				same++
+				continue
+			}
+			differ++
+			o.Key += "|tags=assert"
+			o.Msg = "[under -tags=assert] " + o.Msg
+			c.Obs = append(c.Obs, o)
+		}
+		c.Stats["tags=assert pass: obligations with the same verdict"] = same
+		c.Stats["tags=assert pass: obligations that differ"] = differ
+		c.Notes = append(c.Notes, "thorough tier: every rule was evaluated a second time on the module loaded with -tags=assert (the only build tag the repository defines)")
+		c.tags = ""
+		c.progs = firstProgs
 	}
 	c.cur = nil
 	// Floors and canaries.
